@@ -96,6 +96,16 @@ pub fn run(args: &Args) {
         if had_old {
             std::fs::write(d.join("export.txt"), OLD_CONTENT).unwrap();
         }
+        // a temporary file left behind by an earlier, killed export: longer than anything this
+        // run writes and ending in the middle of a line (the protocol creates it truncating)
+        if rng.chance(1, 2) {
+            let mut stale = String::new();
+            for i in 0..9 {
+                stale.push_str(&format!("4 {:040x} 7 7\n", 0xee00 + i));
+            }
+            stale.push_str("4 00000000000000000000");
+            std::fs::write(d.join("export.tmp"), stale).unwrap();
+        }
         let status = std::process::Command::new(&exe)
             .args(["export-child", "--dir", d.to_str().unwrap(), "--n", &n.to_string(), "--k", &k.to_string()])
             .stdout(std::process::Stdio::null())
